@@ -21,6 +21,8 @@
 EXTENDS PollObs
 
 CONSTANTS Jobs, SubmitTimes, Dur, YieldAt, FailVals, CancelTimes, NotifyAt, PollRaiseAt, CancelFn, Interval,
+          PollDur,       \* virtual time the poll function takes before it yields / raises (0: none): delegates may
+                         \* complete - and register descriptors - while a call is in progress
           Horizon, KeepHist, Bug
 
 NoOne == <<"none", 0>>
@@ -33,12 +35,12 @@ Can(j) == <<"can", j>>
 Threads == {LOOP, OBS, NOTIF} \cup UNION {{Sub(j), Env(j), Can(j)} : j \in Jobs}
 
 VARIABLES cfgS, cfgY, cfgFail, cfgK,
-          pc, descs, lock, gate, evt, woken, fst, stage, calls, snap, pos, seen, wdl, edl, now,
+          pc, descs, lock, gate, evt, woken, fst, stage, calls, snap, pos, seen, wdl, edl, cdl, now,
           obs, viol, hist, actor
 
 cfg  == <<cfgS, cfgY, cfgFail, cfgK>>
 vars == <<cfgS, cfgY, cfgFail, cfgK, pc, descs, lock, gate, evt, woken, fst, stage, calls, snap, pos, seen, wdl,
-          edl, now, obs, viol, hist, actor>>
+          edl, cdl, now, obs, viol, hist, actor>>
 
 RECURSIVE Feed(_, _, _)
 Feed(o, v, evs) ==
@@ -61,7 +63,7 @@ Init ==
   /\ descs = <<>> /\ lock = NoOne /\ gate = NoOne /\ evt = FALSE /\ woken = FALSE
   /\ fst = [j \in Jobs |-> "new"] /\ stage = [j \in Jobs |-> "none"]
   /\ calls = 0 /\ snap = <<>> /\ pos = 1 /\ seen = [j \in Jobs |-> 0]
-  /\ wdl = -1 /\ edl = [j \in Jobs |-> -1] /\ now = 0
+  /\ wdl = -1 /\ edl = [j \in Jobs |-> -1] /\ cdl = -1 /\ now = 0
   /\ obs = ObsInit /\ viol = "ok" /\ hist = <<>> /\ actor = <<"-", 0>>
 
 SetEvent == evt' = TRUE /\ woken' = (woken \/ pc[LOOP] = "l_blocked")
@@ -77,7 +79,7 @@ SSleep(j) ==
   /\ pc' = [pc EXCEPT ![Sub(j)] = "s_gate"]
   /\ Emit(<<E1("SubmitCall", "client", now, j)>>)
   /\ actor' = Sub(j)
-  /\ UNCHANGED <<cfg, descs, lock, gate, evt, woken, fst, stage, calls, snap, pos, seen, wdl, edl, now>>
+  /\ UNCHANGED <<cfg, descs, lock, gate, evt, woken, fst, stage, calls, snap, pos, seen, wdl, edl, cdl, now>>
 
 G_SGate(j) == pc[Sub(j)] = "s_gate" /\ gate = NoOne
 SGate(j) ==    \* the whole of submit(): delegate.submit, PollFuture(...), return
@@ -89,7 +91,7 @@ SGate(j) ==    \* the whole of submit(): delegate.submit, PollFuture(...), retur
                       ![Can(j)] = IF cfgK[j] < 90000 THEN "c_sleep" ELSE "c_never"]
   /\ Emit(<<E1("SubmitRet", "client", now, j)>>)
   /\ actor' = Sub(j)
-  /\ UNCHANGED <<cfg, descs, lock, gate, evt, woken, calls, snap, pos, seen, wdl, now>>
+  /\ UNCHANGED <<cfg, descs, lock, gate, evt, woken, calls, snap, pos, seen, wdl, cdl, now>>
 
 \* ------------------------------------------------------------------ delegate completion
 G_EFinish(j) == pc[Env(j)] = "e_sleep" /\ now >= edl[j]
@@ -110,7 +112,7 @@ EFinish(j) ==
               /\ Emit(<<E3("InvokeEnd", "env", now, j, 0, ResId(j))>>)
               /\ UNCHANGED <<fst, stage>>
   /\ actor' = Env(j)
-  /\ UNCHANGED <<cfg, descs, lock, gate, evt, woken, calls, snap, pos, seen, wdl, edl, now>>
+  /\ UNCHANGED <<cfg, descs, lock, gate, evt, woken, calls, snap, pos, seen, wdl, edl, cdl, now>>
 
 G_EReg(j) == pc[Env(j)] = "e_reg" /\ lock = NoOne
 EReg(j) ==     \* with self._lock: append descriptor; future._clear_delegate(); next visible op: _poll_event.set()
@@ -120,7 +122,7 @@ EReg(j) ==     \* with self._lock: append descriptor; future._clear_delegate(); 
   /\ stage' = [stage EXCEPT ![j] = "polling"]
   /\ pc' = [pc EXCEPT ![Env(j)] = "e_regset"]
   /\ actor' = Env(j) /\ NoEmit
-  /\ UNCHANGED <<cfg, gate, evt, woken, fst, calls, snap, pos, seen, wdl, edl, now>>
+  /\ UNCHANGED <<cfg, gate, evt, woken, fst, calls, snap, pos, seen, wdl, edl, cdl, now>>
 
 G_ERegSet(j) == pc[Env(j)] = "e_regset"
 ERegSet(j) ==
@@ -130,7 +132,7 @@ ERegSet(j) ==
   /\ pc' = [pc EXCEPT ![Env(j)] = "done"]
   /\ Emit(<<E2("DelegateDone", "env", now, j, 0)>>)
   /\ actor' = Env(j)
-  /\ UNCHANGED <<cfg, descs, gate, fst, stage, calls, snap, pos, seen, wdl, edl, now>>
+  /\ UNCHANGED <<cfg, descs, gate, fst, stage, calls, snap, pos, seen, wdl, edl, cdl, now>>
 
 G_EDereg(j) == pc[Env(j)] = "e_dereg" /\ lock = NoOne
 EDereg(j) ==   \* _clear_executor -> _deregister_poll (nothing registered for a failed delegate)
@@ -139,7 +141,7 @@ EDereg(j) ==   \* _clear_executor -> _deregister_poll (nothing registered for a 
   /\ pc' = [pc EXCEPT ![Env(j)] = "done"]
   /\ Emit(<<E2("DelegateDone", "env", now, j, 1)>>)
   /\ actor' = Env(j)
-  /\ UNCHANGED <<cfg, lock, gate, evt, woken, fst, stage, calls, snap, pos, seen, wdl, edl, now>>
+  /\ UNCHANGED <<cfg, lock, gate, evt, woken, fst, stage, calls, snap, pos, seen, wdl, edl, cdl, now>>
 
 \* ------------------------------------------------------------------ the poll loop
 \* run the poll function from descriptor position p on: returns <<events, next position, job to deregister or 0>>
@@ -162,6 +164,27 @@ EndCall(evs, k) ==
   /\ seen' = [j \in Jobs |-> IF \E i \in DOMAIN snap' : snap'[i] = j THEN seen[j] + 1 ELSE seen[j]]
   /\ Emit(evs \o <<EK("PollRet", "poll", now, -1, k, 0, -1, "")>>)
 
+\* the body of poll call k over the snapshot sn (`call` = events already due, e.g. PollCall): raise, or yield up to
+\* the first deregistration / the end
+RunFn(sn, k, call) ==
+  IF PollRaiseAt = k /\ sn # <<>>
+    THEN \* the poll function raises: every future it was SHOWN fails; first one deregisters
+         \* (seeded model bug raise_fails_live: ... every future registered by now fails)
+         LET base == IF Bug = "raise_fails_live" THEN descs ELSE sn
+             pend == SelectSeq(base, LAMBDA j : fst[j] = "pending") IN
+           /\ fst' = [j \in Jobs |-> IF \E i \in DOMAIN pend : pend[i] = j THEN "done" ELSE fst[j]]
+           /\ pos' = Len(sn) + 1
+           /\ seen' = seen
+           /\ pc' = [pc EXCEPT ![LOOP] = IF pend = <<>> THEN "l_wait" ELSE "l_rdereg"]
+           /\ Emit(call \o <<EK("PollRet", "poll", now, -1, k, 1, RaiseId, "")>> \o
+                   [i \in DOMAIN pend |-> ESA("Observed", "poll", now, pend[i], "FINISHED", 1, RaiseId)])
+    ELSE LET r == PollFrom(sn, 1, k, fst) IN
+           IF r[3] = 0
+             THEN /\ pos' = r[2] /\ UNCHANGED fst /\ EndCall(call \o r[1], k)
+             ELSE /\ pos' = r[2] /\ fst' = [fst EXCEPT ![r[3]] = "done"] /\ seen' = seen
+                  /\ pc' = [pc EXCEPT ![LOOP] = "l_dereg"]
+                  /\ Emit(call \o r[1])
+
 G_LSnap == pc[LOOP] = "l_top" /\ lock = NoOne
 LSnap ==       \* with self._lock: snapshot; then the poll function runs up to its first deregistration / its end
   /\ G_LSnap
@@ -170,23 +193,21 @@ LSnap ==       \* with self._lock: snapshot; then the poll function runs up to i
          xs == [i \in 1..(2 * Len(sn)) |-> IF i % 2 = 1 THEN sn[(i + 1) \div 2] ELSE ResId(sn[i \div 2])]
          call == <<Ev("PollCall", "-", "poll", now, -1, k, -1, -1, -1, "", xs)>>
      IN /\ calls' = k /\ snap' = sn
-        /\ IF PollRaiseAt = k /\ sn # <<>>
-             THEN \* the poll function raises: every shown future fails; first one deregisters
-                  LET pend == SelectSeq(sn, LAMBDA j : fst[j] = "pending") IN
-                    /\ fst' = [j \in Jobs |-> IF \E i \in DOMAIN pend : pend[i] = j THEN "done" ELSE fst[j]]
-                    /\ pos' = Len(sn) + 1
-                    /\ seen' = seen
-                    /\ pc' = [pc EXCEPT ![LOOP] = IF pend = <<>> THEN "l_wait" ELSE "l_rdereg"]
-                    /\ Emit(call \o <<EK("PollRet", "poll", now, -1, k, 1, RaiseId, "")>> \o
-                            [i \in DOMAIN pend |-> ESA("Observed", "poll", now, pend[i], "FINISHED", 1, RaiseId)])
-             ELSE LET r == PollFrom(sn, 1, k, fst) IN
-                    IF r[3] = 0
-                      THEN /\ pos' = r[2] /\ UNCHANGED fst /\ EndCall(call \o r[1], k)
-                      ELSE /\ pos' = r[2] /\ fst' = [fst EXCEPT ![r[3]] = "done"] /\ seen' = seen
-                           /\ pc' = [pc EXCEPT ![LOOP] = "l_dereg"]
-                           /\ Emit(call \o r[1])
+        /\ IF PollDur = 0
+             THEN RunFn(sn, k, call) /\ UNCHANGED cdl
+             ELSE \* the poll function takes time: the call is in progress until cdl
+                  /\ pc' = [pc EXCEPT ![LOOP] = "l_call"] /\ cdl' = now + PollDur
+                  /\ Emit(call) /\ UNCHANGED <<fst, pos, seen>>
   /\ actor' = LOOP
   /\ UNCHANGED <<cfg, descs, lock, gate, evt, woken, stage, wdl, edl, now>>
+
+G_LCall == pc[LOOP] = "l_call" /\ now >= cdl
+LCall ==       \* ... the poll function comes to its yields / its raise
+  /\ G_LCall
+  /\ snap' = snap /\ calls' = calls
+  /\ RunFn(snap, calls, <<>>)
+  /\ actor' = LOOP
+  /\ UNCHANGED <<cfg, descs, lock, gate, evt, woken, stage, wdl, edl, cdl, now>>
 
 G_LDereg == pc[LOOP] = "l_dereg" /\ lock = NoOne
 LDereg ==      \* the resolved future's first callback: _deregister_poll; then the poll function continues
@@ -202,7 +223,7 @@ LDereg ==      \* the resolved future's first callback: _deregister_poll; then t
                   /\ UNCHANGED pc
                   /\ Emit(ret \o r[1])
   /\ actor' = LOOP
-  /\ UNCHANGED <<cfg, lock, gate, evt, woken, stage, calls, wdl, edl, now>>
+  /\ UNCHANGED <<cfg, lock, gate, evt, woken, stage, calls, wdl, edl, cdl, now>>
 
 G_LRDereg == pc[LOOP] = "l_rdereg" /\ lock = NoOne
 LRDereg ==     \* after a raising poll function: the failed futures deregister one by one (executor._lock each)
@@ -213,7 +234,7 @@ LRDereg ==     \* after a raising poll function: the failed futures deregister o
           ELSE /\ descs' = SelectSeq(descs, LAMBDA x : x # left[1])
                /\ pc' = [pc EXCEPT ![LOOP] = IF Len(left) = 1 THEN "l_wait" ELSE "l_rdereg"]
   /\ actor' = LOOP /\ NoEmit
-  /\ UNCHANGED <<cfg, lock, gate, evt, woken, fst, stage, calls, snap, pos, seen, wdl, edl, now>>
+  /\ UNCHANGED <<cfg, lock, gate, evt, woken, fst, stage, calls, snap, pos, seen, wdl, edl, cdl, now>>
 
 G_LEnter == pc[LOOP] = "l_wait"
 LEnter ==
@@ -221,7 +242,7 @@ LEnter ==
   /\ IF evt THEN /\ pc' = [pc EXCEPT ![LOOP] = "l_clear"] /\ UNCHANGED wdl
             ELSE /\ pc' = [pc EXCEPT ![LOOP] = "l_blocked"] /\ wdl' = now + Interval + 1
   /\ actor' = LOOP /\ NoEmit
-  /\ UNCHANGED <<cfg, descs, lock, gate, evt, woken, fst, stage, calls, snap, pos, seen, edl, now>>
+  /\ UNCHANGED <<cfg, descs, lock, gate, evt, woken, fst, stage, calls, snap, pos, seen, edl, cdl, now>>
 
 G_LWake == pc[LOOP] = "l_blocked" /\ (woken \/ now >= wdl)
 LWake ==
@@ -229,7 +250,7 @@ LWake ==
   /\ woken' = FALSE
   /\ pc' = [pc EXCEPT ![LOOP] = "l_clear"]
   /\ actor' = LOOP /\ NoEmit
-  /\ UNCHANGED <<cfg, descs, lock, gate, evt, fst, stage, calls, snap, pos, seen, wdl, edl, now>>
+  /\ UNCHANGED <<cfg, descs, lock, gate, evt, fst, stage, calls, snap, pos, seen, wdl, edl, cdl, now>>
 
 G_LClear == pc[LOOP] = "l_clear"
 LClear ==
@@ -237,7 +258,7 @@ LClear ==
   /\ evt' = FALSE
   /\ pc' = [pc EXCEPT ![LOOP] = "l_top"]
   /\ actor' = LOOP /\ NoEmit
-  /\ UNCHANGED <<cfg, descs, lock, gate, woken, fst, stage, calls, snap, pos, seen, wdl, edl, now>>
+  /\ UNCHANGED <<cfg, descs, lock, gate, woken, fst, stage, calls, snap, pos, seen, wdl, edl, cdl, now>>
 
 \* ------------------------------------------------------------------ cancel()
 G_CStart(j) == pc[Can(j)] = "c_sleep" /\ now >= cfgK[j]
@@ -267,7 +288,7 @@ CStart(j) ==
               ELSE /\ pc' = [pc EXCEPT ![Can(j)] = "done"] /\ UNCHANGED <<fst, stage>>
                    /\ Emit(call \o fnevs \o <<E2("CancelRet", "canceller", now, j, 0)>>)
   /\ actor' = Can(j)
-  /\ UNCHANGED <<cfg, descs, lock, gate, evt, woken, calls, snap, pos, seen, wdl, edl, now>>
+  /\ UNCHANGED <<cfg, descs, lock, gate, evt, woken, calls, snap, pos, seen, wdl, edl, cdl, now>>
 
 G_CDereg(j) == pc[Can(j)] = "c_dereg" /\ lock = NoOne
 CDereg(j) ==   \* the cancelled future's first callback: _deregister_poll
@@ -276,7 +297,7 @@ CDereg(j) ==   \* the cancelled future's first callback: _deregister_poll
   /\ pc' = [pc EXCEPT ![Can(j)] = "done"]
   /\ Emit(<<E2("CancelRet", "canceller", now, j, 1)>>)
   /\ actor' = Can(j)
-  /\ UNCHANGED <<cfg, lock, gate, evt, woken, fst, stage, calls, snap, pos, seen, wdl, edl, now>>
+  /\ UNCHANGED <<cfg, lock, gate, evt, woken, fst, stage, calls, snap, pos, seen, wdl, edl, cdl, now>>
 
 \* ------------------------------------------------------------------ notify(), observer, time
 G_NWake == pc[NOTIF] = "n_sleep" /\ now >= NotifyAt
@@ -285,14 +306,14 @@ NWake ==
   /\ pc' = [pc EXCEPT ![NOTIF] = "n_set"]
   /\ Emit(<<E0("NotifyCall", "client", now)>>)
   /\ actor' = NOTIF
-  /\ UNCHANGED <<cfg, descs, lock, gate, evt, woken, fst, stage, calls, snap, pos, seen, wdl, edl, now>>
+  /\ UNCHANGED <<cfg, descs, lock, gate, evt, woken, fst, stage, calls, snap, pos, seen, wdl, edl, cdl, now>>
 G_NSet == pc[NOTIF] = "n_set"
 NSet ==
   /\ G_NSet
   /\ SetEvent
   /\ pc' = [pc EXCEPT ![NOTIF] = "done"]
   /\ actor' = NOTIF /\ NoEmit
-  /\ UNCHANGED <<cfg, descs, lock, gate, fst, stage, calls, snap, pos, seen, wdl, edl, now>>
+  /\ UNCHANGED <<cfg, descs, lock, gate, fst, stage, calls, snap, pos, seen, wdl, edl, cdl, now>>
 
 G_OEnd == pc[OBS] = "o_sleep" /\ now >= Horizon
 OEnd ==
@@ -300,18 +321,19 @@ OEnd ==
   /\ pc' = [pc EXCEPT ![OBS] = "done"]
   /\ Emit(<<E0("End", "main", now)>>)
   /\ actor' = OBS
-  /\ UNCHANGED <<cfg, descs, lock, gate, evt, woken, fst, stage, calls, snap, pos, seen, wdl, edl, now>>
+  /\ UNCHANGED <<cfg, descs, lock, gate, evt, woken, fst, stage, calls, snap, pos, seen, wdl, edl, cdl, now>>
 
 AnyEnabled ==
   \/ \E j \in Jobs : \/ G_SSleep(j) \/ G_SGate(j) \/ G_EFinish(j) \/ G_EReg(j) \/ G_ERegSet(j) \/ G_EDereg(j)
                      \/ G_CStart(j) \/ G_CDereg(j)
-  \/ G_LSnap \/ G_LDereg \/ G_LRDereg \/ G_LEnter \/ G_LWake \/ G_LClear \/ G_NWake \/ G_NSet \/ G_OEnd
+  \/ G_LSnap \/ G_LCall \/ G_LDereg \/ G_LRDereg \/ G_LEnter \/ G_LWake \/ G_LClear \/ G_NWake \/ G_NSet \/ G_OEnd
 
 Deadlines ==
   {cfgS[j] : j \in {x \in Jobs : pc[Sub(x)] = "s_sleep"}}
   \cup {edl[j] : j \in {x \in Jobs : pc[Env(x)] = "e_sleep"}}
   \cup {cfgK[j] : j \in {x \in Jobs : pc[Can(x)] = "c_sleep"}}
   \cup (IF pc[LOOP] = "l_blocked" THEN {wdl} ELSE {})
+  \cup (IF pc[LOOP] = "l_call" THEN {cdl} ELSE {})
   \cup (IF pc[NOTIF] = "n_sleep" THEN {NotifyAt} ELSE {})
   \cup (IF pc[OBS] = "o_sleep" THEN {Horizon} ELSE {})
 
@@ -319,12 +341,12 @@ Tick ==
   /\ ~AnyEnabled /\ Deadlines # {}
   /\ now' = CHOOSE d \in Deadlines : \A x \in Deadlines : d <= x
   /\ actor' = <<"tick", 0>>
-  /\ UNCHANGED <<cfg, pc, descs, lock, gate, evt, woken, fst, stage, calls, snap, pos, seen, wdl, edl, obs, viol, hist>>
+  /\ UNCHANGED <<cfg, pc, descs, lock, gate, evt, woken, fst, stage, calls, snap, pos, seen, wdl, edl, cdl, obs, viol, hist>>
 
 Next ==
   \/ \E j \in Jobs : \/ SSleep(j) \/ SGate(j) \/ EFinish(j) \/ EReg(j) \/ ERegSet(j) \/ EDereg(j)
                      \/ CStart(j) \/ CDereg(j)
-  \/ LSnap \/ LDereg \/ LRDereg \/ LEnter \/ LWake \/ LClear \/ NWake \/ NSet \/ OEnd \/ Tick
+  \/ LSnap \/ LCall \/ LDereg \/ LRDereg \/ LEnter \/ LWake \/ LClear \/ NWake \/ NSet \/ OEnd \/ Tick
 
 Spec == Init /\ [][Next]_vars
 
@@ -332,5 +354,5 @@ ContractHolds == viol = "ok"
 \* every registered descriptor belongs to a future that is still unresolved or is being deregistered right now
 NoStaleDescriptorAtEnd == pc[OBS] = "done" => \A i \in DOMAIN descs : fst[descs[i]] = "pending"
 StopAtHorizon == now <= Horizon
-View == <<cfg, pc, descs, lock, gate, evt, woken, fst, stage, calls, snap, pos, seen, wdl, edl, now, obs, viol>>
+View == <<cfg, pc, descs, lock, gate, evt, woken, fst, stage, calls, snap, pos, seen, wdl, edl, cdl, now, obs, viol>>
 =============================================================================
